@@ -673,6 +673,8 @@ def run(cx, tier='quick'):
     if n != 2:
         rep.broken.append('expected the Debug struct and enum handlers, found %d' % n)
     check_type_name_fn(cx, rep)
+    from .c13 import include_own_scanners
+    include_own_scanners(cx, facts, rep, ['::debug::'])
     rep.floor('SUM-DEBUG', 30, '(37 cases today)')
     rep.assumptions += ['core::fmt::DebugStruct/DebugTuple/DebugMap render the call sequence as documented, in compact and alternate mode',
                         '#[derive(Debug)] is specified as debug_struct(Name).field("f", &self.f)… / debug_tuple(Name).field(&self.0)… / write_str(Variant)',
